@@ -107,6 +107,7 @@ type m3Case struct {
 	proto       string
 	max         int32
 	queue       int
+	internal    map[string]string
 	dests       int
 	common      map[string]string
 	includeHost bool
@@ -348,7 +349,16 @@ func m3GenCase(r *Rng, pf m3Profile, idx int) *m3Case {
 	cs := &m3Case{proto: []string{"c", "b"}[r.Intn(2)], service: "svc", env: "test", idName: "bucketid", rangeName: "bucket"}
 	cls := func(s string) { cs.class = append(cs.class, s) }
 	// configuration
-	cs.queue = []int{1, 2, 7, 64, 1000, 4096}[r.Intn(6)]
+	cs.queue = []int{1, 2, 7, 64, 1000, 4096, 0, -1}[r.Intn(8)] // 0 and -1: the default (4096)
+	if r.Chance(20) {                                           // extra / overriding tags for the reporter's own internal metrics
+		cs.internal = map[string]string{}
+		for n := r.Range(1, 2); len(cs.internal) < n; {
+			k := []string{"version", "host", "dc", m3TagStr(r)}[r.Intn(4)]
+			if k != "" {
+				cs.internal[k] = m3TagStr(r)
+			}
+		}
+	}
 	if r.Chance(25) {
 		cs.dests = 3
 	} else {
@@ -628,7 +638,7 @@ func m3Opts(cs *m3Case, hostPorts []string) m3.Options {
 	}
 	return m3.Options{HostPorts: hostPorts, Service: cs.service, Env: cs.env, CommonTags: cs.common, IncludeHost: cs.includeHost,
 		Protocol: p, MaxQueueSize: cs.queue, MaxPacketSizeBytes: cs.max, HistogramBucketIDName: cs.idName,
-		HistogramBucketName: cs.rangeName, HistogramBucketTagPrecision: cs.prec}
+		HistogramBucketName: cs.rangeName, HistogramBucketTagPrecision: cs.prec, InternalTags: cs.internal}
 }
 
 func m3SpecTok(hd *m3Handle) string {
@@ -715,7 +725,21 @@ func m3Exec(c *Ctx, cs *m3Case, r *Rng) *m3Run {
 		host = hxs(hn)
 	}
 	tConstruct := time.Now().UnixNano()
-	rep, err := m3.NewReporter(m3Opts(cs, hostPorts))
+	var rep m3.Reporter
+	var err error
+	if cs.proto == "c" && cs.idName == "bucketid" && cs.rangeName == "bucket" && r.Chance(40) {
+		// everything this case configures can be said through the YAML Configuration as well (Compact, default
+		// bucket tag names): construct the reporter that way
+		cfg := m3.Configuration{HostPorts: hostPorts, Service: cs.service, Env: cs.env, CommonTags: cs.common, Queue: cs.queue,
+			PacketSize: cs.max, IncludeHost: cs.includeHost, HistogramBucketTagPrecision: cs.prec, InternalTags: cs.internal}
+		if len(hostPorts) == 1 && r.Bool() {
+			cfg.HostPorts, cfg.HostPort = nil, hostPorts[0]
+		}
+		rep, err = cfg.NewReporter()
+		c.Cov.Hit("constructed-through-configuration")
+	} else {
+		rep, err = m3.NewReporter(m3Opts(cs, hostPorts))
+	}
 	if err != nil {
 		closeSinks()
 		run.skipped = "constructor: " + err.Error()
@@ -727,6 +751,9 @@ func m3Exec(c *Ctx, cs *m3Case, r *Rng) *m3Run {
 		prec = m3.DefaultHistogramBucketTagPrecision
 	}
 	internal := map[string]string{"version": tally.Version, "host": tally.DefaultTagRedactValue, "instance": tally.DefaultTagRedactValue}
+	for k, v := range cs.internal {
+		internal[k] = v
+	}
 	run.lines = append(run.lines, fmt.Sprintf("begin %s %d %d %d %d %s %s %s %s %s %s %d %s", cs.proto, cs.max, run.free, run.overhead, tConstruct,
 		mapHex(cs.common), hxs(cs.service), hxs(cs.env), host, hxs(cs.idName), hxs(cs.rangeName), prec, mapHex(internal)))
 	var lineMu sync.Mutex
